@@ -11,11 +11,11 @@ TB_COMMON = "Trusted base: the harness itself (reference model named in the text
 CHECKS = {
     "C01": dict(cat="model_checking", design="§4 C01, §3.2, §3.3", engine=ENGINE,
                 technique="explicit-state exploration (layered parallel BFS keyed by the Debug rendering of the real Registry, cross-checked against stateright) of registration histories on the real Registry + exhaustive enumeration of all small type graphs x root sequences, builder histories and (registry, filter) pairs; invariant: dense and closed",
-                text="Every reachable state of: (a) all register_type / register_types / into_portable / map_into_portable histories over the 61-member static universe U1 to depth 3 (quick) / 4 (thorough) and over a 19-op core alphabet to depth 5 / 7; (b) every type graph of the U2 plans (all graphs up to 3 nodes, 4 thorough, incl. self and mutual recursion and parameter-only reachability) x every root sequence with repetition; (c) every builder history to depth 5/6; (d) every (registry, filter) pair of the C10 enumeration; and decode(encode(r)) of all of them, is checked for id == index, resolve agreement, Registry::types() keys in order, and closure of every mentioned id (fields, variant fields, params, sequence/array/compact element, tuple members, bit store/order).",
+                text="Every reachable state of: (a) all register_type / register_types / into_portable / map_into_portable histories over the 61-member static universe U1 to depth 3 (quick) / 4 (thorough) and over a 19-op core alphabet to depth 5 / 6; (b) every type graph of the U2 plans (all graphs up to 3 nodes, 4 thorough, incl. self and mutual recursion and parameter-only reachability) x every root sequence with repetition; (c) every builder history to depth 5/6; (d) every (registry, filter) pair of the C10 enumeration; and decode(encode(r)) of all of them, is checked for id == index, resolve agreement, Registry::types() keys in order, and closure of every mentioned id (fields, variant fields, params, sequence/array/compact element, tuple members, bit store/order).",
                 note="refs() is the independent visitor of every id position."),
     "C02": dict(cat="model_checking", design="§4 C02", engine=ENGINE,
                 technique="explicit-state exploration of registration histories (U1, stateright) and exhaustive type-graph enumeration (U2) with a co-inductive image check against MetaType::type_info()",
-                text="For every history of the C01 exploration (U1 to depth 3/4, core to 5/7; every U2 graph x root sequence), every id returned by a registration is compared, slot by slot and to a fixed point through cycles, with the type's own type_info(): path, parameter names and Some/None, kind, field names, type names, docs, variant names / indices / docs, array length, tuple arity, primitive tag; outputs of into_portable / map_into_portable are compared the same way.",
+                text="For every history of the C01 exploration (U1 to depth 3/4, core to 5/6; every U2 graph x root sequence), every id returned by a registration is compared, slot by slot and to a fixed point through cycles, with the type's own type_info(): path, parameter names and Some/None, kind, field names, type names, docs, variant names / indices / docs, array length, tuple arity, primitive tag; outputs of into_portable / map_into_portable are compared the same way.",
                 note="The same image check runs over every definition of the generated derive- and built-in-grammar corpora (each registered alone); termination of registration is observed (an engine crash is attributed by registering each universe member in its own process)."),
     "C03": dict(cat="exploration", design="§4 C03, §3.5", engine=PROGS,
                 technique="exhaustive enumeration of a bounded grammar of type definitions (base shapes x overlays, deviation-bounded) compiled by rustc against /repo, x every value of boundary leaf domains; oracle: schema-directed reference decoder that knows only the PortableRegistry",
